@@ -62,9 +62,6 @@ Module pkg_eval_vals.
 End pkg_eval_vals.
 
 Module pkg_cli.
-  Definition VerifC32FinalRedraw : Z := 2.
-  Definition VerifC32FullRedraw : Z := 1.
-  Definition VerifC32InputChSize : Z := 128.
   Definition finalRedraw : Z := 2.
   Definition fullRedraw : Z := 1.
   Definition inputChSize : Z := 128.
@@ -160,7 +157,6 @@ Module pkg_getopt.
 End pkg_getopt.
 
 Module pkg_edit_highlight.
-  Definition VerifCommandType : list N := (hx "636f6d6d616e64"%string).
   Definition barewordRegion : list N := (hx "62617265776f7264"%string).
   Definition commandRegion : list N := (hx "636f6d6d616e64"%string).
   Definition commentRegion : list N := (hx "636f6d6d656e74"%string).
@@ -287,4 +283,43 @@ Module pkg_cli_tk.
   Definition colViewColGap : Z := 1.
   Definition listBoxColGap : Z := 2.
 End pkg_cli_tk.
+
+Module pkg_mods_math.
+  Definition maxInt : Z := 9223372036854775807.
+  Definition minInt : Z := (-9223372036854775808).
+End pkg_mods_math.
+
+Module pkg_strutil.
+End pkg_strutil.
+
+Module pkg_edit.
+End pkg_edit.
+
+Module pkg_edit_complete.
+End pkg_edit_complete.
+
+Module pkg_mods_str.
+End pkg_mods_str.
+
+Module pkg_mods_re.
+End pkg_mods_re.
+
+Module pkg_eval_vars.
+End pkg_eval_vars.
+
+Module pkg_rpc.
+  Definition logRegisterError : bool := false.
+End pkg_rpc.
+
+Module pkg_shell.
+End pkg_shell.
+
+Module pkg_persistent_list.
+End pkg_persistent_list.
+
+Module pkg_mods_file.
+End pkg_mods_file.
+
+Module pkg_mods_flag.
+End pkg_mods_flag.
 
